@@ -235,4 +235,84 @@ theorem column_step (w : Nat → Nat → Int) (T : Ties) (sCode : SCodeFn) (hcel
             exact stepJS_last T sCode _ _ m n j _ _ _ _ _ _ r r' hs)
         simpa using this
 
+/-! ### the outer loop `for j in 1..=n` -/
+
+/-- the state after column `j`: the last column's values, **every** column's cells and `Lx` entry, `Lx[j'] = 0` for the columns not
+yet started -/
+structure Outer (a : Aligner) (m n j : Nat) (cols : List (List Row)) : Prop where
+  len : cols.length = j + 1
+  done : ColDone a m n j (cols.getD j []) (fun k j' => cellAt a k j') (fun j' => a.Lx.getD j' 0)
+  cells : ∀ j' k, j' ≤ j → k ≤ m → cellAt a k j' =
+    cellOf ((cols.getD j' []).getD k default).t.ts ((cols.getD j' []).getD k default).t.ti
+      ((cols.getD j' []).getD k default).t.td
+  lx : ∀ j', j' ≤ j → a.Lx.getD j' 0 = ((cols.getD j' []).getD m default).t.lx
+  lx0 : ∀ j', j < j' → j' ≤ n → a.Lx.getD j' 0 = 0
+
+/-- columns `j + 1 ..= j + k` appended to the columns computed so far -/
+def colsT (stepCol : Nat → List Row → Option (List Row)) : Nat → Nat → List (List Row) → Option (List (List Row))
+  | 0, _, cols => some cols
+  | k + 1, j, cols => obind (stepCol (j + 1) (cols.getD j [])) fun c => colsT stepCol k (j + 1) (cols ++ [c])
+
+/-- **the outer loop of the main fill** (`for j in 1..=n`, translated text) from the finished column `j` on **= `colsT (colStepT …)`**:
+panics iff a column of the mirror is `none`, otherwise ends holding the last column and the cells / `Lx` entries of all columns -/
+theorem outer_loop (w : Nat → Nat → Int) (T : Ties) (sCode : SCodeFn) (hcell : CellEq w T sCode) (x y : List Nat) (m n : Nat)
+    (sc : Sc) (cl : Clip) (hx : x.length = m) (hy : y.length = n) :
+    ∀ (k j : Nat) (a : Aligner) (cols : List (List Row)), Outer a m n j cols → j + k = n → scOf w a = sc → clOf a = cl →
+      match colsT (fun j pc => colStepT T sCode sc cl x m n j (y.getD (j - 1) 0) pc) k j cols with
+      | none => List.foldlM (custom_for3 w T.iT T.dT T.snT T.sn0T x y m n) a (List.range' (j + 1) k) = Res.panic
+      | some all => ∃ a', List.foldlM (custom_for3 w T.iT T.dT T.snT T.sn0T x y m n) a (List.range' (j + 1) k) = Res.ok a' ∧
+          Outer a' m n n all ∧ a'.scoring = a.scoring := by
+  intro k
+  induction k with
+  | zero =>
+    intro j a cols ho hjk hsc hcl
+    have : j = n := by omega
+    subst this
+    simp only [colsT, List.range'_zero, List.foldlM_nil, Res.pure_eq_ok]
+    exact ⟨a, rfl, ho, rfl⟩
+  | succ k ih =>
+    intro j a cols ho hjk hsc hcl
+    obtain ⟨len, done, cells, lx, lx0⟩ := ho
+    have hstep := column_step w T sCode hcell a x y m n (j + 1) (cols.getD j []) _ _
+      (by rw [Nat.add_sub_cancel]; exact done) hx hy (by omega) (by omega) (lx0 (j + 1) (by omega) (by omega))
+    rw [hsc, hcl, Nat.add_sub_cancel] at hstep
+    simp only [colsT, List.range'_succ, List.foldlM_cons, Nat.add_sub_cancel]
+    cases hc : colStepT T sCode sc cl x m n (j + 1) (y.getD j 0) (cols.getD j []) with
+    | none => rw [hc] at hstep; simp only [hstep, obind_none, Res.panic_bind]
+    | some col =>
+      rw [hc] at hstep
+      obtain ⟨a1, e1, d1, l1, s1⟩ := hstep
+      simp only [e1, obind_some, Res.ok_bind]
+      have gl : ∀ j', j' ≤ j → (cols ++ [col]).getD j' [] = cols.getD j' [] := fun j' h => getD_snoc_lt _ _ _ _ (by omega)
+      have ge : (cols ++ [col]).getD (j + 1) [] = col := by rw [← len]; exact getD_snoc_eq _ _ _
+      obtain ⟨ddims, dS, dI, dD, dSn, dLy, dLx, dCell, dOld, dOldLx⟩ := d1
+      have ho1 : Outer a1 m n (j + 1) (cols ++ [col]) := by
+        refine ⟨by simp [len], ⟨ddims, ?_, ?_, ?_, ?_, ?_, ?_, ?_, fun _ _ _ _ _ => rfl, fun _ _ _ => rfl⟩, ?_, ?_, ?_⟩
+        · rw [ge]; exact dS
+        · rw [ge]; exact dI
+        · rw [ge]; exact dD
+        · rw [ge]; exact dSn
+        · rw [ge]; exact dLy
+        · rw [ge]; exact dLx
+        · rw [ge]; exact dCell
+        · intro j' k' hj' hk'
+          by_cases h : j' = j + 1
+          · subst h; rw [ge]; exact dCell k' hk'
+          · rw [gl j' (by omega), dOld k' j' hk' (by omega) h]; exact cells j' k' (by omega) hk'
+        · intro j' hj'
+          by_cases h : j' = j + 1
+          · subst h; rw [ge]; exact dLx
+          · rw [gl j' (by omega), dOldLx j' (by omega) h]; exact lx j' (by omega)
+        · intro j' h1 h2
+          rw [dOldLx j' h2 (by omega)]; exact lx0 j' (by omega) h2
+      have hsc1 : scOf w a1 = sc := by rw [← hsc]; unfold scOf; rw [s1]
+      have hcl1 : clOf a1 = cl := by rw [← hcl]; unfold clOf; rw [s1]
+      have h2 := ih (j + 1) a1 (cols ++ [col]) ho1 (by omega) hsc1 hcl1
+      cases hcs : colsT (fun j pc => colStepT T sCode sc cl x m n j (y.getD (j - 1) 0) pc) k (j + 1) (cols ++ [col]) with
+      | none => rw [hcs] at h2; exact h2
+      | some all =>
+        rw [hcs] at h2
+        obtain ⟨a', f1, f2, f3⟩ := h2
+        exact ⟨a', f1, f2, by rw [f3, s1]⟩
+
 end RbV.Thm.GenSrcPwColGlue
